@@ -58,6 +58,7 @@ fn concretise(c: &Value, rng: &mut Rng) -> Opts {
 		.iter()
 		.map(|s| match s.as_str().unwrap() {
 			"dns" => (format!("{}.example.test", random_text("printable", rng, 6).replace(|c: char| !c.is_ascii_alphanumeric(), "x")), None),
+			"same-as-cn" => ("www.example.com".to_string(), None),
 			"dns-trailing-dot" => ("host.example.test.".to_string(), None),
 			"at-sign" => ("user@host.example.test".to_string(), None),
 			"odd-ia5" => ("U$".to_string(), None),
